@@ -11,7 +11,7 @@ use std::rc::Rc;
 pub static ENGINE: Engine = Engine {
     prop: "C19",
     level: "model_checking",
-    rule: "explicit-state BFS over ALL pairs (A,B) of subsets of the b-bit universe (b=2: 256 states, b=3: 65536); every state is rebuilt on real BDDSets in a fresh environment by replaying its BFS path from the empty pair; from every state every operation insert(X,e), union/intersect/complement(X,Y) with (X,Y) in {(A,B),(B,A),(A,A),(B,B)}, empty, universe and the query contains(X,e) is executed on the real sets and then membership of EVERY element of BOTH sets is asked forwards and backwards and compared with the reference masks; plus every operation sequence up to depth 3 (4) on one long-lived pair without cloning. distinct = distinct (state, operation) pairs executed + distinct long-lived sequences",
+    rule: "explicit-state BFS over ALL pairs (A,B) of subsets of the b-bit universe (b=2: 256 states, b=3: 65536); every state is rebuilt on real BDDSets in a fresh environment by replaying its BFS path from the empty pair; from every state every operation insert(X,e), union/intersect/complement(X,Y) with (X,Y) in {(A,B),(B,A),(A,A),(B,B)}, empty, universe and the query contains(X,e) is executed on the real sets and then membership of EVERY element of BOTH sets is asked forwards and backwards and compared with the reference masks; plus every operation sequence up to depth 4 (5) for b=2 and 3 (4) for b=3 on one long-lived pair without cloning. distinct = distinct (state, operation) pairs executed + distinct long-lived sequences",
     assumptions: &["reference = bit masks with the usual set operations; complement(X,Y) is set difference X \\ Y as the property states", "bounds: universe of 2^b elements with b <= 3, two sets, sequences on a long-lived pair up to depth 4"],
     max_shards: 64,
     run,
@@ -312,12 +312,8 @@ fn long_lived(ctx: &mut Ctx, bits: usize, depth: usize) {
 fn run(ctx: &mut Ctx) {
     bfs(ctx, 2);
     bfs(ctx, 3);
-    long_lived(ctx, 2, if ctx.thorough() { 4 } else { 3 });
-    if ctx.thorough() {
-        long_lived(ctx, 3, 3);
-    } else {
-        long_lived(ctx, 3, 2);
-    }
+    long_lived(ctx, 2, if ctx.thorough() { 5 } else { 4 });
+    long_lived(ctx, 3, if ctx.thorough() { 4 } else { 3 });
     let s2 = ctx.globals.get("states_b2").copied().unwrap_or(0);
     let s3 = ctx.globals.get("states_b3").copied().unwrap_or(0);
     ctx.global("states", s2 + s3);
